@@ -227,7 +227,7 @@ def run_case(case):
         seqs = svggen.sequences(r, 60)
         names = {}
         for q in seqs:
-            for scheme in range(4):
+            for scheme in range(6):
                 bump("c.filenames")
                 fn = inproc.filename_for(q, scheme)
                 got = tuple(cpmod.from_filename(Path(fn).stem))
